@@ -45,6 +45,12 @@ def enumerated(tier, seed):
     for i, G in graphs:
         for root in G.nodes():
             cases.append({"kind": "identity", "name": f"atlas{i}", "edges": [list(e) for e in G.edges()], "root": root})
+        if 3 <= G.number_of_nodes() <= 5:
+            # the same motif on the ids -2, -1, 0, ... (hash(-1) == hash(-2)): distinct vertices of one motif
+            g = lambda v: v - 2
+            for root in G.nodes():
+                cases.append({"kind": "identity", "name": f"atlas{i}-neg", "edges": [[g(a), g(b)] for a, b in G.edges()],
+                              "root": g(root)})
         if G.number_of_nodes() <= 5:
             # the same motif with ids beyond the small-int cache, edges listed (larger, smaller), focal id passed
             # as a separately created equal object
@@ -79,13 +85,15 @@ def motif(draw, idx):
         edges = [[draw(st.integers(0, i - 1)), i] for i in range(1, n)]
         extra = [list(p) for p in combinations(range(n), 2) if list(p) not in edges]
         edges += draw(st.lists(st.sampled_from(extra), max_size=min(4, len(extra)), unique_by=tuple)) if extra else []
-    relabel = draw(st.sampled_from(["id", "offset", "perm", "big"]))
+    relabel = draw(st.sampled_from(["id", "offset", "perm", "big", "neg"]))
     n = max(max(e) for e in edges) + 1
     lab = list(range(n))
     if relabel == "offset":
         lab = [7 * i + 3 for i in range(n)]
     elif relabel == "big":
         lab = [1000 + 17 * i for i in range(n)]  # ids outside CPython's small-int cache
+    elif relabel == "neg":
+        lab = [x - 2 for x in draw(st.permutations(list(range(n))))]  # -2 and -1 hash alike in CPython
     elif relabel == "perm":
         lab = list(draw(st.permutations(lab)))
     return {"name": f"m{idx}-{kind}", "edges": [[lab[a], lab[b]] for a, b in edges]}
